@@ -224,7 +224,12 @@ def type_el(t: ir.PType, o: Opts):
     if t.kind == "enumerated":
         kids.append(E("EnumerationList", children=[E("Enumeration", {"value": enum_value_text(v), "label": lab})
                                                     for v, lab in t.enumeration]))
-    return E(tag, {"name": t.name}, kids)
+    a = {"name": t.name}
+    if t.kind == "boolean" and o.write_default():
+        # informational XTCE attributes (display names of the two states): they do not change what a boolean parameter decodes to
+        a["oneStringValue"] = "ENABLED"
+        a["zeroStringValue"] = "DISABLED"
+    return E(tag, a, kids)
 
 
 def param_el(p: ir.Param, o: Opts):
@@ -275,7 +280,12 @@ def serialize(root: E, ns_style=("prefix", "xtce"), trivia=None, pretty=True, ex
             elif kind == "default":
                 attrs = f' xmlns="{XTCE_URI}"' + attrs
             for k, v in (extra_ns or {}).items():
-                attrs += f' xmlns:{k}="{v}"'
+                if k == "":
+                    # an unrelated DEFAULT namespace declared next to the XTCE prefix (only possible in prefixed renderings)
+                    if kind == "prefix":
+                        attrs += f' xmlns="{v}"'
+                else:
+                    attrs += f' xmlns:{k}="{v}"'
         tag = pfx + e.tag
         here = path + "/" + e.tag
         if e.text is not None:
